@@ -369,6 +369,7 @@ static void shared_shift_op_case(const RMat& A, int n, int nev, int ncv, double 
     sym::witness("end");
 }
 
+#ifndef C13_AUDIT_ONLY
 // operator left untouched: probe before / after compute(); complex-shift solver re-run
 static void complex_shift_case(int n)
 {
@@ -454,6 +455,7 @@ static void svd_case(int m, int n)
 }
 
 // ---------------------------------------------------------------- C14: failing operator
+#endif  // C13_AUDIT_ONLY
 struct Fault
 {
     int tag;
@@ -562,6 +564,7 @@ static void fault_case(const RMat& A, int n, int nev, int ncv, Args args, int nf
     sym::witness("end");
 }
 
+#ifndef C13_AUDIT_ONLY
 // B-operator of a generalized problem (regular-inverse mode): y = B x and y = B^{-1} x, each can fail
 struct FaultyBOp
 {
@@ -640,6 +643,7 @@ static void bfault_case(bool in_solve)
     sym::witness("end");
 }
 
+#endif  // C13_AUDIT_ONLY
 // C13 on the real kernels: an auditing operator (valid, distinct, non-overlapping length-n buffers; call count) around the
 // library wrapper; degenerate concrete operators drive the breakdown / restart paths of the real Arnoldi / Lanczos code.
 template <typename Base>
@@ -745,6 +749,7 @@ int main(int argc, char** argv)
                     }
                 }
     }
+#ifndef C13_AUDIT_ONLY
     cases.push_back({"fault-B/SymGEigsSolver-RegularInverse/product", []() { bfault_case(false); }});
     cases.push_back({"fault-B/SymGEigsSolver-RegularInverse/solve", []() { bfault_case(true); }});
     const char* kinds[] = {"diag", "laplace", "rank1", "block", "perm", "int"};
@@ -809,5 +814,6 @@ int main(int argc, char** argv)
                              fault_case<GenEigsSolver<FaultyOp<DenseGenMatProd<Real>>>, DenseGenMatProd<Real>, true>(instance("int", 6, false), 6, 2, 5, Args{SortRule::LargestMagn, 10, 1e-10}, nf);
                          }});
     }
+#endif  // C13_AUDIT_ONLY
     return sym::run_main(argc, argv, cases);
 }
